@@ -522,5 +522,6 @@ func runC20(e *Engine, r *Report) {
 	ruleTanRemoveAllFirst(e, r)
 	ruleTanInstallRemovesFirst(e, r)
 	ruleShardRouting(e, r)
+	ruleBootstrapGate(e, r)
 	ruleCreatedFileSync(e, r, 1, "tools")
 }
